@@ -235,6 +235,10 @@ def scenario_for(seed, index, tier):
     sc['frames'] = info[conv['name']]['frames']
     sc['n'] = info[conv['name']]['n']
     sc['round'] = rnd
+    # every third case: the application's exception handler hands the
+    # clean-up (an idempotent disconnect()) to another thread and waits for
+    # it - the networking thread must not be what keeps that thread waiting
+    sc['helper'] = index % 3 == 0
     if rnd == 'segmented':
         sc['sched']['granularity'] = 'line'
     return sc
@@ -263,9 +267,33 @@ def _execute(scenario, tape, want_world=False):
             kw['allowed_versions'] = scenario['allowed']
         if scenario.get('initial') is not None:
             kw['initial_version'] = scenario['initial']
+        def on_exception(e, i):
+            errs.append(e)
+            if scenario.get('helper') and not st.get('helper_gone'):
+                st['req'] = st.get('req', 0) + 1
+                want = st['req']
+                # a hard wait: if the helper cannot get through, the run
+                # ends as the deadlock it would be in real life
+                w.sim.block(lambda: st.get('ack', 0) >= want or
+                            st.get('helper_gone'), None,
+                            reason='handler-waits-for-helper', poll=True,
+                            patient=False)
+
+        def helper():
+            while True:
+                w.wait_until(lambda: st.get('req', 0) > st.get('ack', 0) or
+                             st.get('stop_helper'), budget=False)
+                if st.get('req', 0) > st.get('ack', 0):
+                    w.api('helper-disconnect', conn.disconnect)
+                    st['ack'] = st['req']
+                    continue
+                st['helper_gone'] = True
+                return
         conn = Connection('sim.example', 25565, username='crash',
-                          handle_exception=lambda e, i: errs.append(e),
+                          handle_exception=on_exception,
                           handle_exit=lambda: exits.append(w.sim.seq), **kw)
+        if scenario.get('helper'):
+            w.sim.spawn(helper, 'helper')
 
         def on_packet(p):
             pkts.append((len(w.net.conns) - 1 - st.get('off', 0), p.id,
@@ -296,6 +324,7 @@ def _execute(scenario, tape, want_world=False):
             st['quiet'] = w.wait_until(
                 lambda: common.networking_quiet(conn) and
                 common.all_net_done(w.sim), 30000000)
+            st['stop_helper'] = True
         w.sim.spawn(user, 'user0')
 
     w.run(build)
